@@ -87,6 +87,11 @@ impl<'a> World<'a> {
     }
 
     pub fn set_links(&mut self, down: &[usize]) {
+        // S6 binding self-test: a deliberately wrong ADAPTER (never applies the link state) must be reported
+        // as a violation by the P-monitors
+        if std::env::var("SN_MUTANT").map(|m| m == "nolinkstate").unwrap_or(false) {
+            return;
+        }
         for (n, l) in self.t.links.iter().enumerate() {
             let up = !down.contains(&(n + 1));
             if let Some(k) = self.topo.mut_scion_link(&self.ia[l.a as usize], l.aif) {
